@@ -33,7 +33,17 @@ RULE = ("Base tree of 3-8 entries (files with 4-7 distinct lines, directories, "
         "remove(paths, keep_files=False, force), merge_from_branch(force), "
         "pull, update (lightweight checkout and bound branch), switch, "
         "uncommit - incoming revisions are 1-5 model ops on the same base, so "
-        "they overlap the user's files by edit / delete / rename / replace. "
+        "they overlap the user's files by edit / delete / rename / replace; "
+        "remove-twice: 1-3 files with kept content (preferably with URL-ish "
+        "names) are removed, re-created as unknown / added files with other "
+        "content and removed again, so numbered backups of two rounds must "
+        "coexist; revert-old: a second revision is committed and the tree is "
+        "reverted to the FIRST one (old_tree), usually after a path swap - a "
+        "file whose text differs between the two revisions is moved to a name "
+        "that sorts before / after its old path and another user-edited file "
+        "(existing or new) is put on that path. One new file in three gets a "
+        "URL-ish name (My%20Notes.txt, a%41b, 100%, x y, c#d, q?x, non-ASCII, "
+        "...). "
         "Precious = regular files on disk whose content differs from the basis "
         "text of their file id (or that are added / unknown), whose sha1 is not "
         "the recorded merge-modified hash and that were not created by the "
@@ -56,6 +66,24 @@ REGISTERED = True
 NONTRIVIAL_FLOOR = {"quick": 120, "thorough": 3000}
 
 LINES = ["one\n", "two\n", "three\n", "four\n", "five\n", "six\n", "seven\n"]
+# names that need care when they travel through URLs / transports
+URLISH = ["My%20Notes.txt", "a%41b", "100%", "50%off", "x y", "c#d", "q?x",
+          "ü%C3%BC", "é", "%", "p%2Fq"]
+
+
+def _odd(path):
+    base = path.rsplit("/", 1)[-1]
+    return any(c in base for c in "%#? ") or any(ord(c) > 127 for c in base)
+
+
+def _urlish_name(draw, model, parent, op):
+    """Now and then give a new file one of the URL-ish names."""
+    if op[4] != "file" or draw(st.integers(0, 2)) != 0:
+        return
+    used = tm.names_in(model, parent)
+    free = [n for n in URLISH if n not in used]
+    if free:
+        op[3] = draw(st.sampled_from(free))
 
 
 # ---------------------------------------------------------------- generation
@@ -89,6 +117,10 @@ def _draw_script(draw, model, ids, tag, n_min, n_max, symlinks, flat=False):
     """Ops applicable to `model` (mutated). Modifications are line edits so
     that clean three-way merges are frequent."""
     ops = []
+    # a non-directory on a path that is a directory in the basis makes the
+    # dirstate comparison (trusted base) fail with an internal AssertionError
+    # (DESIGN section 4.3): never generated
+    was_dir = {tm.path_of(model, f) for f in tm.dirs(model) if f != tm.ROOT_ID}
     for _ in range(draw(st.integers(n_min, n_max))):
         op = tm.draw_op(draw, model, ids, symlinks=symlinks, max_depth=2,
                         kinds=["add", "modify", "modify", "modify", "rename",
@@ -96,12 +128,20 @@ def _draw_script(draw, model, ids, tag, n_min, n_max, symlinks, flat=False):
                                                      ["add_dir"]))
         if op is None:
             continue
+        if op[0] in ("add", "rename"):
+            kind = op[4] if op[0] == "add" else model[op[1]]["kind"]
+            parent, name = (op[2], op[3])
+            pp = tm.path_of(model, parent)
+            target = (pp + "/" + name) if pp else name
+            if kind != "directory" and target in was_dir:
+                continue
         if flat and op[0] == "add" and op[4] == "directory":
             continue      # git does not version (empty) directories
         if op[0] == "modify":
             op[2] = _edit_text(draw, model[op[1]]["content"], tag)
         elif op[0] == "add" and op[4] == "file":
             op[5] = "%s new file %s\n" % (tag, op[1]) + (op[5] or "")
+            _urlish_name(draw, model, op[2], op)
         tm.apply_op(model, op)
         ops.append(op)
         if op[0] == "rename" and model[op[1]]["kind"] == "file" and \
@@ -129,6 +169,7 @@ def _base(draw, ids, symlinks, flat=False):
         if op[4] == "file":
             k = draw(st.integers(4, 7))
             op[5] = "".join("%s %s" % (op[1], ln) for ln in LINES[:k])
+            _urlish_name(draw, m, op[2], op)
         if op[4] == "symlink":
             op[5] = draw(st.sampled_from(["a", "b/c", "nowhere"]))
         tm.apply_op(m, op)
@@ -142,21 +183,81 @@ def _base(draw, ids, symlinks, flat=False):
 
 
 CMDS_BZR = ["revert", "revert", "remove", "remove", "merge", "merge", "pull",
-            "update", "update-bound", "switch", "uncommit", "merge-noforce"]
+            "update", "update-bound", "switch", "uncommit", "merge-noforce",
+            "remove-twice", "remove-twice", "revert-old", "revert-old"]
 CMDS_GIT = ["revert", "revert", "merge"]
 
 
+def _mid_script(draw, model, symlinks):
+    """The second committed revision: at least one text change."""
+    ops = _draw_script(draw, model, _ids("m"), "MID", 1, 4, symlinks)
+    files = sorted(f for f, e in model.items() if e["kind"] == "file")
+    if files and not any(o[0] == "modify" for o in ops):
+        f = draw(st.sampled_from(files))
+        op = ["modify", f, _edit_text(draw, model[f]["content"], "MID")]
+        tm.apply_op(model, op)
+        ops.append(op)
+    return ops
+
+
+def _path_swap(draw, old_model, model):
+    """User ops (applied to `model`): a file A whose text differs between the
+    revert target and the basis is moved away, and another user-edited file B
+    (an existing one, or a new one) is put on A's path. A's new name sorts
+    before or after that path."""
+    cands = sorted(f for f, e in model.items()
+                   if e["kind"] == "file" and f in old_model
+                   and old_model[f]["kind"] == "file"
+                   and old_model[f]["content"] != e["content"])
+    if not cands or draw(st.integers(0, 4)) == 0:
+        return []
+    a = draw(st.sampled_from(cands))
+    parent, pname = model[a]["parent"], model[a]["name"]
+    used = tm.names_in(model, parent)
+    newname = draw(st.sampled_from(["0" + pname, "zz" + pname, "!moved",
+                                    "~moved"]))
+    if newname in used:
+        return []
+    ops = [["rename", a, parent, newname]]
+    others = sorted(f for f, e in model.items()
+                    if e["kind"] == "file" and f != a)
+    if others and draw(st.booleans()):
+        b = draw(st.sampled_from(others))
+        ops.append(["rename", b, parent, pname])
+        ops.append(["modify", b, _edit_text(draw, model[b]["content"],
+                                            "LOCAL")])
+    else:
+        ops.append(["add", "lswap-id", parent, pname, "file",
+                    "LOCAL file put on a vacated path\nline two\n",
+                    draw(st.booleans())])
+    if draw(st.booleans()):
+        ops.append(["modify", a, _edit_text(draw, model[a]["content"],
+                                            "LOCAL")])
+    for op in ops:
+        tm.apply_op(model, op)
+    return ops
+
+
 @st.composite
-def gen_case(draw, fmt="2a"):
+def gen_case(draw, fmt="2a", rm_unknown=False):
     git = fmt == "git"
     symlinks = not git and draw(st.booleans())
     ids = _ids("f")
     base_model, base = _base(draw, ids, symlinks, flat=git)
     cmd = draw(st.sampled_from(CMDS_GIT if git else CMDS_BZR))
+    if rm_unknown:
+        cmd = "remove-twice"
     local_model = tm.clone(base_model)
-    local = _draw_script(draw, local_model, _ids("l"), "LOCAL", 1, 5, symlinks,
-                         flat=git)
-    case = {"fmt": fmt, "base": base, "local": local, "cmd": cmd}
+    case = {"fmt": fmt, "base": base, "cmd": cmd}
+    pre = []
+    if cmd == "revert-old":
+        # a second committed revision; the command reverts to the first one
+        case["mid"] = _mid_script(draw, local_model, symlinks)
+        pre = _path_swap(draw, base_model, local_model)
+    local = pre + _draw_script(draw, local_model, _ids("l"), "LOCAL",
+                               0 if pre else 1, 3 if pre else 5, symlinks,
+                               flat=git)
+    case["local"] = local
     if cmd in ("revert", "remove", "uncommit") and not git and \
             draw(st.integers(0, 2)) == 0:
         pm = tm.clone(base_model)
@@ -175,16 +276,28 @@ def gen_case(draw, fmt="2a"):
     case["unknown"] = [[draw(st.integers(0, 30)),
                         draw(st.sampled_from(["u1", "u2.txt", "x~", "new",
                                               "ü", "a.THIS", "<backup>",
-                                              "<backup>"])),
+                                              "<backup>", "My%20Notes.txt",
+                                              "a%41b", "100%", "c#d", "q?x"])),
                         "unknown %d\n" % draw(st.integers(0, 99))]
                        for _ in range(draw(st.integers(0, 3)))]
-    if cmd in ("revert", "remove"):
+    if cmd == "remove-twice":
+        # an *unversioned* file on a path whose removal is pending is deleted
+        # without a backup (open finding): re-created files are re-added
+        # here, the unversioned variant has its own kind
+        case["twice"] = [[draw(st.sampled_from(["odd", "odd", "any"])),
+                          draw(st.integers(0, 30)),
+                          "unknown" if rm_unknown else "added"]
+                         for _ in range(draw(st.integers(1, 3)))]
+    if cmd in ("revert", "remove", "revert-old"):
         case["select"] = [[draw(st.sampled_from(["cur", "cur", "old", "file",
                                                  "unknown", "dir"])),
                            draw(st.integers(0, 30))]
                           for _ in range(draw(st.integers(1, 3)))]
         case["shadow"] = draw(st.integers(0, 2)) == 0
-        if cmd == "revert":
+        if cmd == "revert-old":
+            case["all"] = draw(st.integers(0, 3)) != 0
+            case["backups"] = True
+        elif cmd == "revert":
             case["all"] = draw(st.integers(0, 2)) == 0
             case["backups"] = draw(st.sampled_from([True, True, False]))
         else:
@@ -343,7 +456,6 @@ def _refusals():
 def run(case, env):
     import merge3
     from breezy import errors, switch as _switch, uncommit as _uncommit
-    from breezy import urlutils
     from breezy import workingtree as _wt
     fmt = case["fmt"]
     cmd = case["cmd"]
@@ -369,6 +481,13 @@ def run(case, env):
         bz.apply_ops_wt(wt0, base_model, case["base"])
         _commit(wt0, fmt, "base")
         main_tree = None
+    first_model = base_model
+    if "mid" in case:
+        # a second revision becomes the basis; `base_model` names the basis
+        base_model = tm.clone(first_model)
+        bz.age_files(root)
+        bz.apply_ops_wt(wt0, base_model, case["mid"])
+        _commit(wt0, fmt, "mid")
     bz.age_files(root)
     wt = _open(root)
 
@@ -429,7 +548,23 @@ def run(case, env):
     footprint = set()
     label = cmd
     refused = None
-    if cmd == "revert":
+    def do_remove(tree, paths, force):
+        try:
+            tree.remove(paths, keep_files=False, force=force)
+        except OSError as e:
+            link_to_dir = [p for p, v in before_snap.items()
+                           if v[0] == "symlink"
+                           and any(_inside(s, p) for s in paths)
+                           and (_dir_or_loop(os.path.join(root, p)) or
+                                _is_loop(os.path.join(root, p)))]
+            if link_to_dir:
+                check(False, "C12/remove-follows-versioned-symlink-and-fails",
+                      {"case": case, "paths": paths,
+                                "links": link_to_dir,
+                                "error": "%s: %s" % (type(e).__name__, e)})
+            raise
+
+    if cmd in ("revert", "revert-old"):
         paths = None if case["all"] else _spec_paths(
             case, wt, root, base_model, local_model, unknown_made)
         if paths is not None and not paths:
@@ -459,12 +594,18 @@ def run(case, env):
                 if not case["backups"] and (pr["base"] is not None or
                                             fmt == "git"):
                     discard_ok.add(i)
+        old_tree = None
+        if cmd == "revert-old":
+            old_tree = wt.branch.repository.revision_tree(b"base")
         try:
-            wt.revert(paths, backups=case["backups"])
+            wt.revert(paths, old_tree=old_tree, backups=case["backups"])
         except errors.PathsNotVersionedError:
             refused = "PathsNotVersionedError"
-        label = "revert%s%s" % ("" if paths is None else "-paths",
-                                "" if case["backups"] else "-no-backups")
+        label = "%s%s%s" % (cmd, "" if paths is None else "-paths",
+                            "" if case["backups"] else "-no-backups")
+        if cmd == "revert-old" and any(o[0] == "rename" for o in
+                                       case["local"][:2]):
+            label += "+path-swap"
     elif cmd == "remove":
         paths = _spec_paths(case, wt, root, base_model, local_model,
                             unknown_made)
@@ -477,29 +618,51 @@ def run(case, env):
                 if case["force"]:
                     discard_ok.add(i)
         label = "remove-force" if case["force"] else "remove"
-        try:
-            wt.remove(paths, keep_files=False, force=case["force"])
-        except urlutils.InvalidURL as e:
-            after_files, after_snap = _files_on_disk(root)
-            non_ascii = any(ord(ch) > 127 for p in before_snap for ch in p
-                            if any(_inside(s, p) for s in paths))
-            if non_ascii:
-                check(False, "C12/remove-backup-of-non-ascii-name-raises-"
-                      "InvalidURL", {"case": case, "paths": paths,
-                                     "error": str(e)[:200]})
-            raise
-        except OSError as e:
-            link_to_dir = [p for p, v in before_snap.items()
-                           if v[0] == "symlink"
-                           and any(_inside(s, p) for s in paths)
-                           and (_dir_or_loop(os.path.join(root, p)) or
-                                _is_loop(os.path.join(root, p)))]
-            if link_to_dir:
-                check(False, "C12/remove-follows-versioned-symlink-and-fails",
-                      {"case": case, "paths": paths,
-                                "links": link_to_dir,
-                                "error": "%s: %s" % (type(e).__name__, e)})
-            raise
+        if any(_odd(p) for p in paths):
+            label += ":urlish-name"
+        do_remove(wt, paths, case["force"])
+    elif cmd == "remove-twice":
+        # the same paths are removed (kept content -> numbered backups),
+        # re-created with other user content and removed again: the backups
+        # of both rounds must exist with their own bytes
+        cands = [pr for pr in precious if pr["content"]]
+        odd = [pr for pr in cands if _odd(pr["path"])]
+        picks = []
+        for pref, k, how in case["twice"]:
+            pool = odd if (pref == "odd" and odd) else cands
+            if pool:
+                pth = pool[k % len(pool)]["path"]
+                if pth not in [x[0] for x in picks]:
+                    picks.append([pth, how])
+        if not picks:
+            return trivial()
+        paths = [x[0] for x in picks]
+        for i, pr in enumerate(precious):
+            if pr["path"] in paths:
+                footprint.add(i)
+        label = "remove-twice" + (":urlish-name" if any(_odd(p) for p in paths)
+                                  else "")
+        do_remove(wt, paths, False)
+        again = []
+        for i, (pth, how) in enumerate(picks):
+            ap = os.path.join(root, pth)
+            if os.path.lexists(ap) or not os.path.isdir(os.path.dirname(ap)):
+                continue
+            content = ("ROUND TWO %d of %s\n" % (i, pth)).encode("utf-8")
+            with open(ap, "wb") as f:
+                f.write(content)
+            again.append(pth)
+            precious.append({"path": pth, "content": content,
+                             "versioned": how == "added", "key": None,
+                             "base": None, "rm_unknown": how == "unknown"})
+            footprint.add(len(precious) - 1)
+        wt = _open(root)
+        added = [pth for pth, how in picks if how == "added" and pth in again]
+        if added:
+            wt.add(added)
+        if again:
+            bz.age_files(root)
+            do_remove(_open(root), again, False)
     elif cmd == "uncommit":
         _uncommit.uncommit(wt.branch, tree=wt)
         after_files, after_snap = _files_on_disk(root)
@@ -575,8 +738,12 @@ def run(case, env):
         lost = items[content][0]
         kind = "unknown-file" if not lost["versioned"] else (
             "added-file" if lost["base"] is None else "modified-file")
-        check(False, "C12/%s-loses-%s-content" % (
-            label.replace("merge-noforce", "merge"), kind),
+        sig = "C12/%s-loses-%s-content" % (
+            label.replace("merge-noforce", "merge"), kind)
+        if lost.get("rm_unknown"):
+            sig = ("C12/remove-deletes-unversioned-file-on-path-whose-removal-"
+                   "is-pending")
+        check(False, sig,
             {"case": case, "path": lost["path"],
              "content": content.decode("latin-1"),
              "copies-before": n, "copies-after": have.get(content, 0),
@@ -676,4 +843,7 @@ def kinds(tier):
              examples={"quick": 480, "thorough": 13000}),
         Kind("git", run, strategy=gen_case("git"),
              examples={"quick": 80, "thorough": 2000}),
+        Kind("remove-unversioned-file-on-removed-path", run,
+             strategy=gen_case("2a", rm_unknown=True),
+             examples={"quick": 24, "thorough": 300}),
     ]
